@@ -523,6 +523,10 @@ impl<'a> Model<'a> {
             }
             Ty::Opt(_) => Val::None,
             Ty::Map { .. } => Val::Map(vec![]),
+            Ty::Boxed(t) => self.default_val(t, false)?,
+            Ty::U8 => Val::U(0),
+            Ty::Bool | Ty::Flag => Val::B(false),
+            Ty::Str => Val::S(String::new()),
             Ty::Recv(name) => {
                 let d = self.recvs.get(name).expect("receiver in schema").clone();
                 match (&d.container_default, &d.shape) {
@@ -1162,8 +1166,9 @@ impl<'a> Model<'a> {
             for f in &d.fields {
                 inherited.insert(
                     f.rust,
-                    match &f.ty {
-                        Ty::Opt(_) => Val::None,
+                    match (&f.ty, f.multiple) {
+                        (_, true) => Val::Seq(vec![]),
+                        (Ty::Opt(_), _) => Val::None,
                         _ => Val::Tok(Tok::FromIdent(f.rust.to_string())),
                     },
                 );
